@@ -3,6 +3,7 @@
 package lww
 
 import (
+	"context"
 	"fmt"
 	"sort"
 	"strings"
@@ -255,4 +256,75 @@ func containsWord(s, w string) bool {
 		}
 	}
 	return false
+}
+
+// Reader is what CheckReader needs from an index reader (index.IndexReader satisfies it).
+type Reader interface {
+	DocCount() (uint64, error)
+	Document(id string) (index.Document, error)
+	GetInternal(key []byte) ([]byte, error)
+	TermFieldReader(ctx context.Context, term []byte, field string, includeFreq, includeNorm, includeTermVectors bool) (index.TermFieldReader, error)
+}
+
+// CheckReader is Check for a single index reader (one point-in-time view): DocCount, Document(id)
+// for every id, the postings of the version-distinguishing terms and the internal keys must all
+// describe the model state.
+func (m *Model) CheckReader(r Reader, ids, keys []string) []string {
+	var bad []string
+	cnt, err := r.DocCount()
+	if err != nil {
+		bad = append(bad, "DocCount error: "+err.Error())
+	} else if int(cnt) != len(m.Docs) {
+		bad = append(bad, fmt.Sprintf("DocCount=%d want %d", cnt, len(m.Docs)))
+	}
+	for _, id := range ids {
+		d, err := r.Document(id)
+		if err != nil {
+			bad = append(bad, fmt.Sprintf("Document(%s) error: %v", id, err))
+			continue
+		}
+		if got, want := renderDoc(d), renderVersion(m.Docs[id]); got != want {
+			bad = append(bad, fmt.Sprintf("Document(%s)={%s} want {%s}", id, got, want))
+		}
+	}
+	for _, term := range []string{"x", "y"} {
+		want := 0
+		for _, v := range m.Docs {
+			if s, _ := Versions[v]["t"].(string); containsWord(s, term) {
+				want++
+			}
+		}
+		tfr, err := r.TermFieldReader(context.Background(), []byte(term), "t", false, false, false)
+		if err != nil {
+			bad = append(bad, "TermFieldReader error: "+err.Error())
+			continue
+		}
+		n := 0
+		for {
+			td, err := tfr.Next(nil)
+			if err != nil || td == nil {
+				break
+			}
+			n++
+		}
+		tfr.Close()
+		if n != want {
+			bad = append(bad, fmt.Sprintf("postings of t:%s = %d want %d", term, n, want))
+		}
+	}
+	for _, k := range keys {
+		v, err := r.GetInternal([]byte(k))
+		if err != nil {
+			bad = append(bad, fmt.Sprintf("GetInternal(%s) error: %v", k, err))
+			continue
+		}
+		want := ""
+		if mv, ok := m.Internal[k]; ok {
+			want = fmt.Sprint(mv)
+		}
+		if string(v) != want {
+			bad = append(bad, fmt.Sprintf("GetInternal(%s)=%q want %q", k, v, want))
+		}
+	}
+	return bad
 }
